@@ -108,21 +108,26 @@ type c52Gen struct {
 	refs   []string
 }
 
-// c52Ints backs uniform small-range draws: rapid.IntRange is deliberately
-// biased towards small values, rapid.SampledFrom is uniform.
-var c52Ints = func() []int {
-	s := make([]int, 2048)
-	for i := range s {
-		s[i] = i
-	}
-	return s
-}()
+// c52Uniform draws an (almost) uniform integer in [lo, hi]. rapid's integer
+// and index generators are deliberately biased towards small values for wide
+// ranges, which would turn "rarely" into "mostly"; draws over <= 4 values are
+// uniform, so wider ranges are composed from base-4 digits.
+var c52Digits = []int{0, 1, 2, 3}
 
 func c52Uniform(rt *rapid.T, lo, hi int, l string) int {
-	if n := hi - lo + 1; n <= len(c52Ints) {
-		return lo + rapid.SampledFrom(c52Ints[:n]).Draw(rt, l)
+	n := hi - lo + 1
+	if n <= 1 {
+		return lo
 	}
-	return rapid.IntRange(lo, hi).Draw(rt, l)
+	if n <= 4 {
+		return lo + rapid.SampledFrom(c52Digits[:n]).Draw(rt, l)
+	}
+	v, span := 0, 1
+	for span < n*4 { // two extra bits keep the modulo bias small
+		v = v*4 + rapid.SampledFrom(c52Digits).Draw(rt, l)
+		span *= 4
+	}
+	return lo + v%n
 }
 
 func (g *c52Gen) intn(lo, hi int, l string) int {
